@@ -50,7 +50,7 @@ def check(prog, rep):
         _lattice_guard(prog, rep, prog.func(MOD, name), und)
     _mask(prog, rep, prog.func(MOD, 'randomize_graph_partial_und'))
     rep.floor('D.precondition', 4)
-    rep.floor('B11.', 20)
+    rep.floor('B11.', 36)
     rep.floor('B10.', 4)
     rep.floor('B4.mask', 2)
 
@@ -221,6 +221,52 @@ def _gating(prog, rep, f, und):
             ok = sets.get('%s[0, b]' % P) == 0 and sets.get('%s[0, d]' % P) == 1 and sets.get('%s[1, d]' % P) == 0 and sets.get('%s[1, b]' % P) == 1
         rep.ob('B11.search-starts-from-swapped-out-edges', f, src[0] if src else 'P = %s[(a, c), :].copy()' % M, ok,
                'frontiers must start from the out-neighbours of a and c after the swap (a: -b +d, c: -d +b) in a copy of the rows', line=search.lineno)
+    # visited mask: the search walks along the *old* matrix, which still holds the two edges being removed.  It models the matrix
+    # without them only if their tails can never be expanded again: undirected - a and d blocked for both frontiers (a would step
+    # over a-b, d over d-c); directed - each frontier's own start node.
+    setup = pm.block_of[search][2]
+    masks = set()
+    for s_ in [x for x in ast.walk(search) if isinstance(x, (ast.Assign, ast.AugAssign))]:
+        b_ = m.match(s_, '$P *= np.logical_not($PN)') or m.match(s_, '$P = $P * np.logical_not($PN)') or m.match(s_, '$P[$PN != 0] = 0')
+        if b_ and isinstance(b_['PN'], ast.Name):
+            masks.add(b_['PN'].id)
+    marked = set()
+    for s_ in setup[:pm.block_of[search][3]]:
+        if not (isinstance(s_, ast.Assign) and isinstance(s_.value, ast.Constant) and s_.value.value in (1, True)):
+            continue
+        for t_ in s_.targets:
+            if isinstance(t_, ast.Subscript) and isinstance(t_.value, ast.Name) and t_.value.id in masks \
+                    and isinstance(t_.slice, ast.Tuple) and len(t_.slice.elts) == 2:
+                r_, c_ = t_.slice.elts
+                rows = {0, 1} if (isinstance(r_, ast.Slice) and r_.lower is None and r_.upper is None and r_.step is None) else \
+                    {r_.value} if isinstance(r_, ast.Constant) else set()
+                cols = {e.id for e in (c_.elts if isinstance(c_, (ast.Tuple, ast.List)) else [c_]) if isinstance(e, ast.Name)}
+                marked |= {(r, c) for r in rows for c in cols}
+    need = {(0, 'a'), (1, 'a'), (0, 'd'), (1, 'd')} if und else {(0, 'a'), (1, 'c')}
+    rep.ob('B11.removed-edge-tails-blocked-in-visited-mask', f, 'visited mask %s marks %s before the search' % (sorted(masks), sorted(marked)),
+           bool(masks) and need <= marked,
+           'the search expands along the unmodified matrix, which still contains the edges being removed; unless %s are marked visited from the '
+           'start (missing: %s) a frontier can cross a removed edge and the test accepts swaps that disconnect the network' % (
+               sorted(need), sorted(need - marked)), line=search.lineno)
+    # one step of the search: both frontiers move along rows of the working matrix, lose what was already visited, and the
+    # visited mask grows by the new frontier
+    P_ = _frontier_names(search)
+    for r_ in (0, 1):
+        hit = None
+        for s_ in [x for x in ast.walk(search) if isinstance(x, ast.Assign)]:
+            for pat in ('$P[%d, :] = np.any(%s[$P[%d, :] != 0, :], axis=0)', '$P[%d, :] = np.any(%s[$P[%d, :] != 0], axis=0)',
+                        '$P[%d, :] = %s[$P[%d, :] != 0, :].any(axis=0)', '$P[%d] = np.any(%s[$P[%d] != 0], axis=0)',
+                        '$P[%d, :] = np.any(%s[$P[%d, :] > 0, :], axis=0)', '$P[%d, :] = np.any(%s[$P[%d, :].astype(bool), :], axis=0)'):
+                if m.match(s_, pat % (r_, M, r_)):
+                    hit = s_
+        rep.ob('B11.frontier-%d-expands-along-rows-of-its-own-members' % r_, f, hit if hit is not None else 'P[%d, :] = np.any(%s[P[%d, :] != 0, :], axis=0)' % (r_, M, r_),
+               hit is not None, 'frontier %d must become the union of the neighbour rows of its own current members' % r_, line=search.lineno)
+    grow = [s_ for s_ in ast.walk(search) if isinstance(s_, (ast.Assign, ast.AugAssign)) and any(
+        m.match(s_, pat) for pat in ('$PN += $P', '$PN = $PN + $P', '$PN |= $P', '$PN = np.logical_or($PN, $P)', '$PN[$P != 0] = 1'))
+        and isinstance(getattr(s_, 'target', None) or s_.targets[0], (ast.Name, ast.Subscript))]
+    grow = [g_ for g_ in grow if (norm(g_.target) if isinstance(g_, ast.AugAssign) else norm(g_.targets[0]).split('[')[0]) in masks]
+    rep.ob('B11.visited-mask-accumulates-frontier', f, grow[0] if grow else 'PN += P', bool(grow) and pm.loops(grow[0])[0] is search,
+           'nodes met by the search must be added to the visited mask on every step (otherwise frontiers oscillate and never stall)', line=search.lineno)
     # the engine's accepted states all carry flag == True
     it = SK.Interp(prog, k)
     states = it.run_attempt()
@@ -373,11 +419,21 @@ def variants(root):
         ind = ' ' * (28 if fn.startswith('latmio') else 24)
         B('third exit from search', fn, '\n' + ind + 'PN += P\n', '\n' + ind + 'PN += P\n' + ind + 'if PN.all():\n' + ind + '    break\n', 'B11.search-has-two-exits')
         N('allclose spelling', fn, 'if number_of_components(R) > 1:', 'if number_of_components(R) != 1:')
+        B('visited mask blocks only the own start node', fn, 'PN[:, d] = 1\n' + ind[:-4] + 'PN[:, a] = 1\n', 'PN[0, a] = 1\n' + ind[:-4] + 'PN[1, d] = 1\n', 'B11.removed-edge')
+        B('visited mask misses d', fn, 'PN[:, d] = 1\n', 'pass\n', 'B11.removed-edge')
+        N('visited mask set in one statement', fn, 'PN[:, d] = 1\n' + ind[:-4] + 'PN[:, a] = 1\n', 'PN[:, (a, d)] = 1\n')
+        B('second frontier expands the first one', fn, 'P[1, :] = np.any(R[P[1, :] != 0, :], axis=0)', 'P[1, :] = np.any(R[P[0, :] != 0, :], axis=0)', 'B11.frontier-1')
+        B('frontier expands along columns', fn, 'P[0, :] = np.any(R[P[0, :] != 0, :], axis=0)', 'P[0, :] = np.any(R[:, P[0, :] != 0], axis=1)', 'B11.frontier-0') if False else None
+        B('visited mask never grows', fn, '\n' + ind + 'PN += P\n', '\n' + ind + 'pass\n', 'B11.visited-mask')
+        N('visited mask grows by plain addition', fn, '\n' + ind + 'PN += P\n', '\n' + ind + 'PN = PN + P\n')
     for fn in ['randmio_dir_connected', 'latmio_dir_connected']:
         B('veto flag ignored', fn, 'if rewire:', 'if True:', 'B11.')
         B('veto dropped', fn, 'rewire = False\n', 'pass\n', 'B11.')
         B('shortcut needs one side only', fn, 'np.any((R[a, c], R[d, b], R[d, c])) and\n', 'np.any((R[a, c], R[d, b], R[d, c])) or\n', 'B11.search-skipped')
         B('search seeds not swapped', fn, 'P[0, d] = 1\n', 'P[0, d] = 0\n', 'B11.search-starts')
+        B('visited mask does not block the start node', fn, 'PN[1, c] = 1\n', 'pass\n', 'B11.removed-edge')
+        B('second frontier expands the first one', fn, 'P[1, :] = np.any(R[P[1, :] != 0, :], axis=0)', 'P[1, :] = np.any(R[P[0, :] != 0, :], axis=0)', 'B11.frontier-1')
+        B('visited mask never grows', fn, 'PN += P\n', 'pass\n', 'B11.visited-mask')
         B('search reads the frontier, not the matrix', fn, 'P[0, :] = np.any(R[P[0, :] != 0, :], axis=0)', 'P[0, :] = np.any(PN[P[0, :] != 0, :], axis=0)', 'B11.') if False else None
     for fn in ['latmio_und', 'latmio_dir', 'latmio_und_connected', 'latmio_dir_connected']:
         g = 'D[a, b] * R[a, b] + D[c, d] * R[c, d] >= D[a, d] * R[a, b] + D[c, b] * R[c, d]'
